@@ -166,19 +166,19 @@ def main():
         'C02': 'operand-mutation and whole-array-condition rules of the truth-table interpreter',
         'C03': 'operand-wiring rule of C01 included; interval refinement on any comparison linear in z_cur/z_cap',
         'C04': 'schedule, memory-map, dataset-selection and lane-control rules of C06-C08 included',
-        'C06': 'dataset selection evaluated for every mode with one/several datasets; absolute lane-control rule; no re-binding of kernel parameters',
+        'C06': 'dataset selection evaluated for every mode with one/several datasets; absolute lane-control rule; no re-binding of kernel parameters; thread-index guards of the three GPU kernels evaluated for every thread of an over-sized grid; launch rules of C07 included',
         'C07': 'level partition of the allocation pass evaluated for representative level tables; memory-map rules of C08 included',
         'C08': 'schedule rules of C07 included',
         'C09': 'free_index and remove_dangling_nodes evaluated on small stand-in structures; guards of Line.remove; C10 elimination/copy/pickle rules included',
-        'C10': 'graph-edit primitive rules of C09 included',
+        'C10': 'graph-edit primitive rules of C09 (incl. evaluated remove_dangling_nodes) and library rules of C19 included; guard rules on the elimination / substitution loops',
         'C11': 'bounded-exhaustive comparison of the compiled ignore-terminal with the comment language; per-call transformer construction; C10 resolve/substitute and C19 rules included; a function changed beyond the normal form on which no rule fires ends the partial check with exit 2 (undecided), never a pass',
         'C12': 'operand-mutation rule, whole-array-condition (lane independence) rule, aliased call shapes used by LogicSim',
-        'C13': 'explicit accumulation columns resolved through the unpacking of a_ctrl[line]',
-        'C14': 'per-call transformer construction / no module-level parser state',
+        'C13': 'explicit accumulation columns resolved through the unpacking of a_ctrl[line]; kernel rules of C03 and operand-wiring rule of C01 included',
+        'C14': 'per-call transformer construction / no module-level parser state; DelayFile.iopaths/_interconnects annotation loops evaluated on stand-in circuits (which delays[line, dataset, polarity, :] cell each IOPATH/INTERCONNECT lands in); C11 rules included',
         'C16': 'memory-map rules of C08 included',
         'C17': 's_nodes evaluated on all small node lists; visit-counter width; _locs regular expression compared with its specification on all short names; C09.remove included',
         'C18': 'per-call transformer construction; StilFile methods never store into self',
-        'C19': 'TechLib constructor evaluated on the five library texts with bench.parse replaced by a stand-in (names, pin tables); C01.wiring included',
+        'C19': 'TechLib constructor evaluated on the five library texts with bench.parse replaced by a stand-in (names, pin tables); pin_index / pin_name / pin_is_output evaluated for every cell and pin of every library; C01.wiring included',
         'C20': 'per-call transformer construction / no module-level parser state; DefWire/DefNet geometry properties evaluated on all short routing lists',
     }
     for c in checks:
